@@ -462,6 +462,8 @@ TREE_WITNESSES = [
     ('=TRUE', True), ('=FALSE', False), ('=AND(TRUE,FALSE)', ('call', 'AND', True, False)),
     ('=#N/A', '#N/A'), ('=ISNA(#N/A)', ('call', 'ISNA', '#N/A')), ('=#DIV/0!+1', ('op', '+', '#DIV/0!', 1)), ('=IFERROR(#REF!,#VALUE!)', ('call', 'IFERROR', '#REF!', '#VALUE!')),
     ('=1.5E+3+A1', ('op', '+', 1500.0, 'A1')), ('=2E-2*3', ('op', '*', 0.02, 3)), ('=12.75', 12.75), ('=007', 7),
+    ('=1.25E+5', 125000.0), ('=6.02E+23*2', ('op', '*', 6.02e23, 2)), ('=1.05E-5', 1.05e-05), ('=A1*1.23456789012345E+30-1', ('op', '-', ('op', '*', 'A1', 1.23456789012345e30), 1)),
+    ('=9.999E-7+1E+30', ('op', '+', 9.999e-07, 1e30)), ('=123456789012345', 123456789012345), ('=0.000001', 0.000001), ('=1E+2', 100.0), ('=5e-1', 0.5),
     ("=Sheet2!A1+'My Sheet'!$B$2", ('op', '+', 'Sheet2!A1', 'My Sheet!$B$2')), ('=$A$1:B$2', '$A$1:B$2'),
     ('={1,2;3,4}', ('call', 'ARRAY', ('call', 'ARRAYROW', 1, 2), ('call', 'ARRAYROW', 3, 4))),
     ('=SUM({1,2},3)', ('call', 'SUM', ('call', 'ARRAY', ('call', 'ARRAYROW', 1, 2)), 3)),
@@ -628,6 +630,36 @@ def rule_10(ctx):
     ctx.floor(len(LITERAL_WITNESSES), 'literal witnesses')
 
 
+SEQUENCE = [
+    # calls of the public parser API made one after the other in one process; ('tokenize_range', f) uses the public switch that
+    # splits ranges at the colon
+    ('parse', '=SUM(A1:B2)'), ('parse', '=A1:A3+B1:B3'), ('tokenize_range', '=A1:B2'), ('parse', '=SUM(A1:B2)'), ('parse', '=$B:$D'),
+    ('parse', '="a:b"&A1'), ('tokenize_range', "='My Sheet'!A1:B2+1"), ('parse', "=SUM('My Sheet'!A1:B2,3)"), ('parse', '=A1:A3+B1:B3'),
+    ('parse', '=1.5E+3+A1'), ('parse', '=IF(A1>0,"y",-A1)'), ('parse', '=SUM(A1:B2)'),
+]
+
+
+def rule_11(ctx):
+    """Calls of the parser do not influence each other: a sequence of FormulaParser.parse / tokenize calls - including the public
+    tokenize_range switch - made in ONE world gives, call by call, what the same call gives in a world of its own."""
+    from . import parsetables as P
+    from xlsa.guards import World
+    anchor = ctx.mod('parser').func('FormulaParser.parse')
+    models = P.operator_models(ctx)
+    shared = World()
+    for i, (kind, formula) in enumerate(SEQUENCE):
+        if kind == 'parse':
+            alone = P.parse_tree(ctx, formula, models)
+            got = P.parse_tree(ctx, formula, models, world=shared)
+        else:
+            alone = P.tokens_of(ctx, formula, tokenize_range=True)
+            got = P.tokens_of(ctx, formula, world=shared, tokenize_range=True)
+        ctx.expect(got == alone, anchor, f'call {i + 1} of the sequence: {kind} {formula}',
+                   f'{kind}({formula!r}) gives {got!r} as call {i + 1} of a sequence of parser calls in one process and {alone!r} on its own: '
+                   'parsing one formula must not change how the next one is parsed')
+    ctx.floor(len(SEQUENCE), 'parser calls')
+
+
 RULES = [
     ('C02.1', 'string-literal content is opaque to syntactic decisions', rule_1),
     ('C02.2', 'bounded single-character reads in the tokenizer', rule_2),
@@ -639,4 +671,5 @@ RULES = [
     ('C02.8', 'white-space filter decision table (blank vs intersection operator)', rule_8),
     ('C02.9', 'operator tree shape (precedence relation, pop table, operand order, prefix/infix switch; shared with C01)', rule_9),
     ('C02.10', 'literal text reaches the token stream unchanged (witness formulas)', rule_10),
+    ('C02.11', 'parser calls made one after the other in one process do not influence each other', rule_11),
 ]
